@@ -34,7 +34,7 @@ SPEC = {
         {"name": "asan", "harness": "c08_cc608", "srcs": ["harness/c08_cc608.c"], "flavour": "asan",
          "cases": {"quick": 24000, "thorough": 3000000}, "budget": 20},
         {"name": "witness", "harness": "c08_cc608", "srcs": ["harness/c08_cc608.c"], "flavour": "asan",
-         "cases": {"quick": 44, "thorough": 44}, "mode": "witness", "budget": 20},
+         "cases": {"quick": 46, "thorough": 46}, "mode": "witness", "budget": 20},
     ],
     "min_distinct": 300,
     "min_counters": {
@@ -45,7 +45,7 @@ SPEC = {
         "page_changes_observed": 20000,
         "page_changes_announced_by_event": 20000,
         "cases_agreeing_with_strict_model": 500,
-        "witness_sequences": 22,
+        "witness_sequences": 23,
         "pop-on": 500, "roll-up": 500, "paint-on": 500, "text": 500, "wild": 1000,
         "edge-last-column": 500, "edge-base-row": 500, "edge-command-pairs": 500,
     },
